@@ -10,6 +10,8 @@ import (
 	"sort"
 	"strings"
 	"testing"
+	"testing/synctest"
+	"time"
 
 	"pgregory.net/rapid"
 	"verif.local/vfkit"
@@ -28,11 +30,35 @@ import (
 
 const c44StaleID = "C44-stale-replica-served"
 
-// c44S3 adapts vfkit.ObjStore to storage.S3Client (one key space per bucket).
+// c44S3 adapts vfkit.ObjStore to storage.S3Client (one key space per bucket). Like a real
+// network client it refuses to start a request on a context that is already done, and a
+// GET can be made to stall (stall hook) for a while or until the request context ends.
 type c44S3 struct {
 	o       *vfkit.ObjStore
 	ensures int
+	stall   func(key string) c44Stall
 }
+
+// c44Stall: how a GET on the replica endpoint misbehaves in time.
+type c44Stall struct {
+	Dur   time.Duration // 0 = no stall
+	Serve bool          // after Dur: true = answer normally (slow), false = 503
+	Hang  bool          // never answers; returns only when the request context ends
+}
+
+func (c c44Stall) String() string {
+	switch {
+	case c.Hang:
+		return "hang"
+	case c.Dur == 0:
+		return "none"
+	case c.Serve:
+		return fmt.Sprintf("slow-%s-serve", c.Dur)
+	}
+	return fmt.Sprintf("stall-%s-error", c.Dur)
+}
+
+var errC44SlowDown = errors.New("replica: 503 SlowDown after stalling")
 
 func (s *c44S3) mapErr(err error) error {
 	if errors.Is(err, vfkit.ErrObjNotFound) {
@@ -40,19 +66,63 @@ func (s *c44S3) mapErr(err error) error {
 	}
 	return err
 }
+
+// wait applies the stall of a GET; returns a non-nil error when the call ends here.
+func (s *c44S3) wait(ctx context.Context, key string) error {
+	if err := ctx.Err(); err != nil {
+		return err
+	}
+	if s.stall == nil {
+		return nil
+	}
+	sl := s.stall(key)
+	if sl.Hang {
+		<-ctx.Done()
+		return ctx.Err()
+	}
+	if sl.Dur == 0 {
+		return nil
+	}
+	tm := time.NewTimer(sl.Dur)
+	defer tm.Stop()
+	select {
+	case <-ctx.Done():
+		return ctx.Err()
+	case <-tm.C:
+	}
+	if !sl.Serve {
+		return errC44SlowDown
+	}
+	return nil
+}
 func (s *c44S3) UploadSegment(ctx context.Context, key string, body []byte) error {
+	if err := ctx.Err(); err != nil {
+		return err
+	}
 	return s.o.Put("put-segment", key, body)
 }
 func (s *c44S3) UploadIndex(ctx context.Context, key string, body []byte) error {
+	if err := ctx.Err(); err != nil {
+		return err
+	}
 	return s.o.Put("put-index", key, body)
 }
 func (s *c44S3) DeleteSegment(ctx context.Context, key string) error {
+	if err := ctx.Err(); err != nil {
+		return err
+	}
 	return s.o.Delete("delete-segment", key)
 }
 func (s *c44S3) DeleteIndex(ctx context.Context, key string) error {
+	if err := ctx.Err(); err != nil {
+		return err
+	}
 	return s.o.Delete("delete-index", key)
 }
 func (s *c44S3) DownloadSegment(ctx context.Context, key string, rng *storage.ByteRange) ([]byte, error) {
+	if err := s.wait(ctx, key); err != nil {
+		return nil, err
+	}
 	var r *[2]int64
 	if rng != nil {
 		r = &[2]int64{rng.Start, rng.End}
@@ -61,10 +131,16 @@ func (s *c44S3) DownloadSegment(ctx context.Context, key string, rng *storage.By
 	return b, s.mapErr(err)
 }
 func (s *c44S3) DownloadIndex(ctx context.Context, key string) ([]byte, error) {
+	if err := s.wait(ctx, key); err != nil {
+		return nil, err
+	}
 	b, err := s.o.Get("get-index", key, nil)
 	return b, s.mapErr(err)
 }
 func (s *c44S3) ListSegments(ctx context.Context, prefix string) ([]storage.S3Object, error) {
+	if err := ctx.Err(); err != nil {
+		return nil, err
+	}
 	objs, err := s.o.List("list", prefix)
 	if err != nil {
 		return nil, err
@@ -75,7 +151,13 @@ func (s *c44S3) ListSegments(ctx context.Context, prefix string) ([]storage.S3Ob
 	}
 	return out, nil
 }
-func (s *c44S3) EnsureBucket(ctx context.Context) error { s.ensures++; return nil }
+func (s *c44S3) EnsureBucket(ctx context.Context) error {
+	if err := ctx.Err(); err != nil {
+		return err
+	}
+	s.ensures++
+	return nil
+}
 
 // c44World is one primary bucket, one replica bucket and the dual client over them.
 type c44World struct {
@@ -84,12 +166,18 @@ type c44World struct {
 	dual     storage.S3Client
 	failP    map[string]bool // primary GETs of this key fail (endpoint trouble)
 	failR    map[string]bool // replica GETs of this key fail
+	stallR   map[string]c44Stall
 	failRAll bool
 }
 
+// c44CallerDeadline: the caller's own context is live for the whole read (1 h of the
+// bubble's virtual clock); the data path of the broker uses contexts without deadline.
+const c44CallerDeadline = time.Hour
+
 func c44NewWorld() *c44World {
-	w := &c44World{p: vfkit.NewObjStore(), r: vfkit.NewObjStore(), failP: map[string]bool{}, failR: map[string]bool{}}
+	w := &c44World{p: vfkit.NewObjStore(), r: vfkit.NewObjStore(), failP: map[string]bool{}, failR: map[string]bool{}, stallR: map[string]c44Stall{}}
 	w.pc, w.rc = &c44S3{o: w.p}, &c44S3{o: w.r}
+	w.rc.stall = func(key string) c44Stall { return w.stallR[key] }
 	w.p.Fault = func(op vfkit.ObjOp) vfkit.FaultKind {
 		if strings.HasPrefix(op.Kind, "get") && w.failP[op.Key] {
 			return vfkit.FaultBefore
@@ -117,6 +205,16 @@ func (w *c44World) stale(key string) bool {
 	return !pok || !bytes.Equal(pb, rb)
 }
 
+// staleServed: the replica would answer a GET of key with content the primary does not
+// hold (the predicate of the known finding).
+func (w *c44World) staleServed(key string) bool {
+	sl := w.stallR[key]
+	if w.failR[key] || w.failRAll || sl.Hang || (sl.Dur > 0 && !sl.Serve) {
+		return false
+	}
+	return w.stale(key)
+}
+
 type c44Read struct {
 	Index bool
 	Rng   *storage.ByteRange
@@ -132,11 +230,11 @@ func (rd c44Read) String() string {
 	return fmt.Sprintf("segment[%d-%d]", rd.Rng.Start, rd.Rng.End)
 }
 
-func c44DoRead(c storage.S3Client, key string, rd c44Read) ([]byte, error) {
+func c44DoRead(ctx context.Context, c storage.S3Client, key string, rd c44Read) ([]byte, error) {
 	if rd.Index {
-		return c.DownloadIndex(context.Background(), key)
+		return c.DownloadIndex(ctx, key)
 	}
-	return c.DownloadSegment(context.Background(), key, rd.Rng)
+	return c.DownloadSegment(ctx, key, rd.Rng)
 }
 
 // c44CheckRead performs one read through the dual client and compares it with what the
@@ -147,8 +245,19 @@ func c44CheckRead(w *c44World, key string, rd c44Read) string {
 	if pb, ok := w.p.Peek(key); ok {
 		ref.o.PokeRaw(key, pb)
 	}
-	want, wantErr := c44DoRead(ref, key, rd)
-	got, gotErr := c44DoRead(w.dual, key, rd)
+	// the caller's context is live before, during and after the read
+	ctx, cancel := context.WithTimeout(context.Background(), c44CallerDeadline)
+	defer cancel()
+	want, wantErr := c44DoRead(ctx, ref, key, rd)
+	got, gotErr := c44DoRead(ctx, w.dual, key, rd)
+	if ctx.Err() != nil {
+		// only possible when the replica hangs until the caller's own deadline: by then the
+		// caller has given up and the primary alone would refuse that context as well
+		if gotErr == nil && (wantErr != nil || !bytes.Equal(got, want)) {
+			return fmt.Sprintf("read %s of %q (replica hung until the caller's deadline) returned %d bytes %q; primary content gives (%q, err=%v)", rd, key, len(got), c44Short(got), c44Short(want), wantErr)
+		}
+		return ""
+	}
 	if w.failP[key] {
 		// primary unreachable for this key: the statement fixes the bytes, not availability
 		if gotErr == nil && (wantErr != nil || !bytes.Equal(got, want)) {
@@ -203,7 +312,8 @@ func c44Body(tag string, n int) []byte {
 }
 
 // replica states of the exhaustive core
-var c44States = []string{"identical", "missing", "failing", "older-same-len", "older-shorter", "older-longer", "primary-deleted", "both-absent"}
+var c44States = []string{"identical", "missing", "failing", "older-same-len", "older-shorter", "older-longer", "primary-deleted", "both-absent",
+	"stall-1s-error", "stall-3s-error", "stall-10m-error", "slow-3s-serve", "hang"}
 
 func c44StateStale(s string) bool {
 	return strings.HasPrefix(s, "older") || s == "primary-deleted"
@@ -222,6 +332,20 @@ func c44Apply(w *c44World, key, state string, isIndex bool) {
 	case "failing":
 		w.r.PokeRaw(key, cur)
 		w.failR[key] = true
+	case "stall-1s-error":
+		w.r.PokeRaw(key, cur)
+		w.stallR[key] = c44Stall{Dur: time.Second}
+	case "stall-3s-error":
+		w.r.PokeRaw(key, cur)
+		w.stallR[key] = c44Stall{Dur: 3 * time.Second}
+	case "stall-10m-error":
+		w.stallR[key] = c44Stall{Dur: 10 * time.Minute}
+	case "slow-3s-serve":
+		w.r.PokeRaw(key, cur)
+		w.stallR[key] = c44Stall{Dur: 3 * time.Second, Serve: true}
+	case "hang":
+		w.r.PokeRaw(key, cur)
+		w.stallR[key] = c44Stall{Hang: true}
 	case "older-same-len":
 		w.r.PokeRaw(key, c44Body("OLD-"+key, len(cur)))
 	case "older-shorter":
@@ -264,7 +388,7 @@ func c44Reads(size int64) []c44Read {
 	return rs
 }
 
-// Exhaustive core: every replica state of one key x every read shape, and every pair of
+// Exhaustive core (runs inside a testing/synctest bubble): every replica state of one key x every read shape, and every pair of
 // states over two keys (segment + its index sibling, and two segments), plus the write /
 // list routing for each state.
 func TestVF_C44_Core(t *testing.T) {
@@ -273,6 +397,14 @@ func TestVF_C44_Core(t *testing.T) {
 	st.SetExhaustive(true)
 	known := vfkit.Known(c44StaleID)
 	keys := []string{"default/t/0/segment-00000000000000000000.kfs", "default/t/0/segment-00000000000000000007.kfs"}
+	// one bubble for the whole enumeration: stalls and the caller's deadline run on the
+	// bubble's virtual clock
+	synctest.Test(t, func(t *testing.T) {
+		c44CoreBody(t, st, known, keys)
+	})
+}
+
+func c44CoreBody(t *testing.T, st *vfkit.Stats, known bool, keys []string) {
 	for _, s0 := range c44States {
 		for _, s1 := range c44States {
 			for ki, key := range keys {
@@ -408,40 +540,79 @@ func c44FmtList(l []storage.S3Object) string {
 
 // Histories: uploads / overwrites / deletes through the dual client interleaved with
 // replication events (the replica catches up on one key, loses a key, its endpoint
-// starts or stops failing for a key) and reads of every shape.
+// starts or stops failing or stalling for a key) and reads of every shape. The history is
+// drawn up front (plain data) and executed inside a testing/synctest bubble, so stalls and
+// the caller's deadline cost no real time; the verdict is reported after the bubble ends.
+type c44Op struct {
+	Kind  string
+	Key   int
+	Size  int
+	On    bool
+	Shape int
+	Pfx   int
+	Stall int
+}
+
+var c44OpKinds = []string{"upload", "upload", "replicate", "replicate", "read", "read", "read", "read", "delete", "replica-fail", "primary-fail", "replica-stall", "replica-stall", "list"}
+
+var c44Stalls = []c44Stall{{}, {Dur: time.Second}, {Dur: 1999 * time.Millisecond}, {Dur: 2 * time.Second}, {Dur: 3 * time.Second}, {Dur: 45 * time.Second},
+	{Dur: 10 * time.Minute}, {Dur: 3 * time.Second, Serve: true}, {Dur: 30 * time.Second, Serve: true}, {Hang: true}}
+
+var c44Prefixes = []string{"default/t/", "default/t/0/", "default/t/1/", "default/x/"}
+
 func TestVF_C44_History(t *testing.T) {
 	st := vfkit.NewStats("C44", "history")
 	defer st.Flush()
 	known := vfkit.Known(c44StaleID)
-	rapid.Check(t, func(t *rapid.T) {
+	opGen := rapid.Custom(func(t *rapid.T) c44Op {
+		return c44Op{Kind: rapid.SampledFrom(c44OpKinds).Draw(t, "kind"), Key: rapid.IntRange(0, 3).Draw(t, "key"),
+			Size: rapid.SampledFrom([]int{48, 64, 96, 130}).Draw(t, "size"), On: rapid.Bool().Draw(t, "on"),
+			Shape: rapid.IntRange(0, 15).Draw(t, "shape"), Pfx: rapid.IntRange(0, len(c44Prefixes)-1).Draw(t, "prefix"),
+			Stall: rapid.IntRange(0, len(c44Stalls)-1).Draw(t, "stall")}
+	})
+	rapid.Check(t, func(rt *rapid.T) {
+		inits := rapid.SliceOfN(rapid.SampledFrom([]string{"absent", "primary", "both", "both"}), 4, 4).Draw(rt, "init")
+		ops := rapid.SliceOfN(opGen, 20, 80).Draw(rt, "ops")
 		st.Eval()
-		w := c44NewWorld()
-		ctx := context.Background()
-		keys := []string{
-			"default/t/0/segment-00000000000000000000.kfs", "default/t/0/segment-00000000000000000000.index",
-			"default/t/0/segment-00000000000000000005.kfs", "default/t/1/segment-00000000000000000000.kfs",
+		verdict := ""
+		synctest.Test(t, func(*testing.T) {
+			verdict = c44RunHistory(st, known, inits, ops)
+		})
+		if verdict != "" {
+			rt.Fatalf("%s", verdict)
 		}
-		version := 0
-		var trace []string
-		sawNonIdentical := false
-		keyGen := rapid.SampledFrom(keys)
-		// initial bucket contents: per key absent / primary only / replicated
-		for i, k := range keys {
-			switch rapid.SampledFrom([]string{"absent", "primary", "both", "both"}).Draw(t, fmt.Sprintf("init%d", i)) {
-			case "primary":
-				w.p.PokeRaw(k, c44Body(fmt.Sprintf("i%d", i), 96))
-				trace = append(trace, fmt.Sprintf("init(%d,primary)", i))
-			case "both":
-				w.p.PokeRaw(k, c44Body(fmt.Sprintf("i%d", i), 96))
-				w.r.PokeRaw(k, c44Body(fmt.Sprintf("i%d", i), 96))
-				trace = append(trace, fmt.Sprintf("init(%d,both)", i))
-			}
+	})
+}
+
+// c44RunHistory executes one pre-drawn history; returns "" or the violation.
+func c44RunHistory(st *vfkit.Stats, known bool, inits []string, ops []c44Op) string {
+	w := c44NewWorld()
+	ctx := context.Background()
+	keys := []string{
+		"default/t/0/segment-00000000000000000000.kfs", "default/t/0/segment-00000000000000000000.index",
+		"default/t/0/segment-00000000000000000005.kfs", "default/t/1/segment-00000000000000000000.kfs",
+	}
+	version := 0
+	var trace []string
+	sawNonIdentical := false
+	// initial bucket contents: per key absent / primary only / replicated
+	for i, k := range keys {
+		switch inits[i] {
+		case "primary":
+			w.p.PokeRaw(k, c44Body(fmt.Sprintf("i%d", i), 96))
+			trace = append(trace, fmt.Sprintf("init(%d,primary)", i))
+		case "both":
+			w.p.PokeRaw(k, c44Body(fmt.Sprintf("i%d", i), 96))
+			w.r.PokeRaw(k, c44Body(fmt.Sprintf("i%d", i), 96))
+			trace = append(trace, fmt.Sprintf("init(%d,both)", i))
 		}
-		upload := func(t *rapid.T) {
-			k := keyGen.Draw(t, "key")
+	}
+	for _, op := range ops {
+		k := keys[op.Key]
+		switch op.Kind {
+		case "upload":
 			version++
-			n := rapid.SampledFrom([]int{48, 64, 96, 130}).Draw(t, "size")
-			body := c44Body(fmt.Sprintf("v%d", version), n)
+			body := c44Body(fmt.Sprintf("v%d", version), op.Size)
 			var err error
 			if strings.HasSuffix(k, ".index") {
 				err = w.dual.UploadIndex(ctx, k, body)
@@ -449,147 +620,126 @@ func TestVF_C44_History(t *testing.T) {
 				err = w.dual.UploadSegment(ctx, k, body)
 			}
 			if err != nil {
-				t.Fatalf("upload %q failed on a healthy primary: %v", k, err)
+				return fmt.Sprintf("upload %q failed on a healthy primary: %v\nhistory: %v", k, err, trace)
 			}
 			if pb, ok := w.p.Peek(k); !ok || !bytes.Equal(pb, body) {
-				t.Fatalf("upload %q did not land in the primary", k)
+				return fmt.Sprintf("upload %q did not land in the primary\nhistory: %v", k, trace)
 			}
-			trace = append(trace, fmt.Sprintf("up(%d,%d)", c44Idx(keys, k), n))
-		}
-		replicate := func(t *rapid.T) { // cross-region replication catches up on one key
-			k := keyGen.Draw(t, "key")
+			trace = append(trace, fmt.Sprintf("up(%d,%d)", op.Key, op.Size))
+		case "replicate": // cross-region replication catches up on one key
 			if pb, ok := w.p.Peek(k); ok {
 				w.r.PokeRaw(k, pb)
 			} else {
 				c44Remove(w.r, k)
 			}
-			trace = append(trace, fmt.Sprintf("rep(%d)", c44Idx(keys, k)))
+			trace = append(trace, fmt.Sprintf("rep(%d)", op.Key))
+		case "delete":
+			var err error
+			if strings.HasSuffix(k, ".index") {
+				err = w.dual.DeleteIndex(ctx, k)
+			} else {
+				err = w.dual.DeleteSegment(ctx, k)
+			}
+			if err != nil {
+				return fmt.Sprintf("delete %q failed on a healthy primary: %v\nhistory: %v", k, err, trace)
+			}
+			if _, ok := w.p.Peek(k); ok {
+				return fmt.Sprintf("delete %q did not remove the primary object\nhistory: %v", k, trace)
+			}
+			trace = append(trace, fmt.Sprintf("del(%d)", op.Key))
+		case "replica-fail":
+			w.failR[k] = op.On
+			trace = append(trace, fmt.Sprintf("rfail(%d,%v)", op.Key, op.On))
+		case "primary-fail":
+			w.failP[k] = op.On
+			trace = append(trace, fmt.Sprintf("pfail(%d,%v)", op.Key, op.On))
+		case "replica-stall":
+			w.stallR[k] = c44Stalls[op.Stall]
+			trace = append(trace, fmt.Sprintf("rstall(%d,%s)", op.Key, c44Stalls[op.Stall]))
+		case "list":
+			prefix := c44Prefixes[op.Pfx]
+			got, err := w.dual.ListSegments(ctx, prefix)
+			if err != nil {
+				return fmt.Sprintf("ListSegments(%q) failed on a healthy primary: %v\nhistory: %v", prefix, err, trace)
+			}
+			if g, want := c44FmtList(got), c44ListOf(w.p, prefix); g != want {
+				return fmt.Sprintf("ListSegments(%q) = %s, the primary holds %s\nhistory: %v", prefix, g, want, trace)
+			}
+			st.Class("list")
+			trace = append(trace, "list")
+		case "read":
+			if msg := c44HistoryRead(st, w, op, k, known, &trace, &sawNonIdentical); msg != "" {
+				return msg
+			}
 		}
-		read := func(t *rapid.T) {
-			c44HistoryRead(t, st, w, keys, keyGen, known, &trace, &sawNonIdentical)
+		if msg := c44ReplicaClean(w); msg != "" {
+			return fmt.Sprintf("%s\nhistory: %v", msg, trace)
 		}
-		t.Repeat(map[string]func(*rapid.T){
-			"upload":     upload,
-			"upload2":    upload,
-			"replicate":  replicate,
-			"replicate2": replicate,
-			"read":       read,
-			"read2":      read,
-			"read3":      read,
-			"delete": func(t *rapid.T) {
-				k := keyGen.Draw(t, "key")
-				var err error
-				if strings.HasSuffix(k, ".index") {
-					err = w.dual.DeleteIndex(ctx, k)
-				} else {
-					err = w.dual.DeleteSegment(ctx, k)
-				}
-				if err != nil {
-					t.Fatalf("delete %q failed on a healthy primary: %v", k, err)
-				}
-				if _, ok := w.p.Peek(k); ok {
-					t.Fatalf("delete %q did not remove the primary object", k)
-				}
-				trace = append(trace, fmt.Sprintf("del(%d)", c44Idx(keys, k)))
-			},
-			"replica-fail": func(t *rapid.T) {
-				k := keyGen.Draw(t, "key")
-				w.failR[k] = rapid.Bool().Draw(t, "on")
-				trace = append(trace, fmt.Sprintf("rfail(%d,%v)", c44Idx(keys, k), w.failR[k]))
-			},
-			"primary-fail": func(t *rapid.T) {
-				k := keyGen.Draw(t, "key")
-				w.failP[k] = rapid.Bool().Draw(t, "on")
-				trace = append(trace, fmt.Sprintf("pfail(%d,%v)", c44Idx(keys, k), w.failP[k]))
-			},
-			"list": func(t *rapid.T) {
-				prefix := rapid.SampledFrom([]string{"default/t/", "default/t/0/", "default/t/1/", "default/x/"}).Draw(t, "prefix")
-				got, err := w.dual.ListSegments(ctx, prefix)
-				if err != nil {
-					t.Fatalf("ListSegments(%q) failed on a healthy primary: %v", prefix, err)
-				}
-				if g, want := c44FmtList(got), c44ListOf(w.p, prefix); g != want {
-					t.Fatalf("ListSegments(%q) = %s, the primary holds %s\nhistory: %v", prefix, g, want, trace)
-				}
-				st.Class("list")
-				trace = append(trace, "list")
-			},
-			"": func(t *rapid.T) {
-				if msg := c44ReplicaClean(w); msg != "" {
-					t.Fatalf("%s\nhistory: %v", msg, trace)
-				}
-			},
-		})
-		if sawNonIdentical {
-			st.NonTrivial(trace)
-			st.Sample(map[string]any{"history": trace})
-		}
-	})
+	}
+	if sawNonIdentical {
+		st.NonTrivial(trace)
+		st.Sample(map[string]any{"history": trace})
+	}
+	return ""
 }
 
-func c44HistoryRead(t *rapid.T, st *vfkit.Stats, w *c44World, keys []string, keyGen *rapid.Generator[string], known bool, tracep *[]string, sawp *bool) {
+func c44HistoryRead(st *vfkit.Stats, w *c44World, op c44Op, k string, known bool, tracep *[]string, sawp *bool) string {
 	trace := *tracep
 	defer func() { *tracep = trace }()
-	sawNonIdentical := false
-	defer func() {
-		if sawNonIdentical {
-			*sawp = true
-		}
-	}()
-	k := keyGen.Draw(t, "key")
-	size := int64(0)
+	size := int64(64)
 	if pb, ok := w.p.Peek(k); ok {
 		size = int64(len(pb))
-	} else {
-		size = 64
 	}
 	var rd c44Read
 	if strings.HasSuffix(k, ".index") {
 		rd = c44Read{Index: true}
 	} else {
-		all := c44Reads(size)
 		var segReads []c44Read
-		for _, r := range all {
+		for _, r := range c44Reads(size) {
 			if !r.Index && (r.Rng == nil || (r.Rng.Start >= 0 && r.Rng.End >= r.Rng.Start)) {
 				segReads = append(segReads, r)
 			}
 		}
-		rd = segReads[rapid.IntRange(0, len(segReads)-1).Draw(t, "shape")]
+		rd = segReads[op.Shape%len(segReads)]
 	}
 	_, rok := w.r.Peek(k)
-	pb, pok := w.p.Peek(k)
-	rb, _ := w.r.Peek(k)
+	_, pok := w.p.Peek(k)
+	sl := w.stallR[k]
 	cls := "replica-identical"
 	switch {
-	case w.stale(k):
+	case w.staleServed(k):
 		cls = "replica-stale"
 	case w.failR[k]:
 		cls = "replica-failing"
+	case sl.Hang:
+		cls = "replica-hangs"
+	case sl.Dur > 0 && !sl.Serve:
+		cls = "replica-stalls-then-errors"
 	case !rok && pok:
 		cls = "replica-missing"
 	case !rok && !pok:
 		cls = "both-absent"
-	case !bytes.Equal(pb, rb):
-		cls = "replica-stale"
+	}
+	if sl.Dur > 0 && sl.Serve && cls != "replica-failing" {
+		cls += "+slow"
 	}
 	if w.failP[k] {
 		cls += "+primary-failing"
 	}
-	if cls == "replica-stale" || cls == "replica-stale+primary-failing" {
-		if known {
-			st.ExcludedCase(c44StaleID)
-			trace = append(trace, "skip-stale-read")
-			return
-		}
+	if strings.HasPrefix(cls, "replica-stale") && known {
+		st.ExcludedCase(c44StaleID)
+		trace = append(trace, "skip-stale-read")
+		return ""
 	}
 	st.Class(cls)
 	if cls != "replica-identical" {
-		sawNonIdentical = true
+		*sawp = true
 	}
-	trace = append(trace, fmt.Sprintf("rd(%d,%s,%s)", c44Idx(keys, k), rd, cls))
+	trace = append(trace, fmt.Sprintf("rd(%d,%s,%s)", op.Key, rd, cls))
 	if msg := c44CheckRead(w, k, rd); msg != "" {
-		t.Fatalf("%s [replica state: %s]\nhistory: %v", msg, cls, trace)
+		return fmt.Sprintf("%s [replica state: %s, stall %s]\nhistory: %v", msg, cls, sl, trace)
 	}
+	return ""
 }
 
 func c44Idx(keys []string, k string) int {
